@@ -19,8 +19,7 @@ def main():
     ck.prove()
     exe = vlib.build_harness("C01")
     model = vlib.build_model("C01")
-    S = sc.Session(ck, exe, model)
-    nlp, ncfg, nmax = (130, 4, 12) if ck.tier == "quick" else (3000, 8, 30)
+    nlp, ncfg, nmax = (130, 4, 12) if ck.tier == "quick" else (1200, 6, 25)
     r = ck.rng
     lps = []
     for _ in range(nlp):
@@ -40,7 +39,6 @@ def main():
         corpus = [(lpgen.parse_lp_text(rp["lp"]), [rp.get("config", {})])]
         lps = []
     lps = [c[0] for c in corpus] + lps
-    classes, exs = S.classify(lps)
     cfgs = {}
     for k in range(len(lps)):
         cfgs[k] = [{}, {"ensureray": 1}]
@@ -48,13 +46,13 @@ def main():
             cfgs[k].append(lpgen.rand_config(r, {"ensureray": [0, 1]}))
     for k, c in enumerate(corpus):
         cfgs[k] = [{}] + c[1]
-    runs, rc, crashed = S.run(lps, cfgs)
-    if crashed is not None:
-        k, c = crashed
+    classes, exs, runs, ans, crashes, skipped = sc.run_in_chunks(ck, exe, model, lps, cfgs)
+    for (k, c, rc) in crashes:
         ck.violation("crash", "the solver crashed (rc=%d) on LP %d under %s" % (rc, k, cfgs[k][c]),
                      {"lp": lps[k].text("replay"), "lp_format": lps[k].lp_format(), "config": cfgs[k][c], "kind": "crash"})
-    ans = S.judge_queries(lps, runs)
     for k, p in enumerate(lps):
+        if k in skipped:
+            continue
         cl = classes[k]
         for ru in runs[k]:
             c = int(ru["_id"].split("!")[0])
